@@ -112,3 +112,10 @@ Definition estimate (nets : list (N * N)) : N :=
   fold_left (fun acc n => acc + compute_net_sz (snd n)) nets 0.
 (* what a subnet contributes when x is one of its hosts *)
 Definition is_host (x : N) (n : N * N) : bool := existsb (N.eqb x) (ip_gen (fst n) (snd n)).
+
+(* devices already registered in EdgeX and operating ([reg x] = an operating device is registered at
+   address x on the scanned port): the workers skip them, the generators enumerate them all the same *)
+Definition probed (reg : N -> bool) (nets : list (N * N)) : list N :=
+  filter (fun x => negb (reg x)) (discover_all nets).
+Definition skipped (reg : N -> bool) (nets : list (N * N)) : list N :=
+  filter reg (discover_all nets).
